@@ -304,6 +304,13 @@ gwf.map(Klass(), ['1'])
 gwf.map(tpl, ['n1'], name='named')
 gwf.map(tpl, [{'x': 'f1'}], name=lambda idx, t: 'fn_%%d' %% idx)
 gwf.target('consumer', inputs=['out/b.res', 'out/direct.res'], outputs=['out/final.res']) << 'echo final'
+# the workflow's own glob helpers list files relative to the workflow's working directory, not the invoking one
+for _i, _p in enumerate(sorted(gwf.glob('in/g*.txt'))):
+    gwf.target('glob%%d' %% _i, inputs=[_p], outputs=['out/glob%%d.res' %% _i]) << 'echo g'
+for _i, _p in enumerate(sorted(gwf.iglob('in/h*.txt'))):
+    gwf.target('iglob%%d' %% _i, inputs=[_p], outputs=['out/iglob%%d.res' %% _i]) << 'echo h'
+for _i, _n in enumerate(sorted(gwf.shell("ls in | grep '^g'", universal_newlines=True).split())):
+    gwf.target('shell%%d' %% _i, inputs=['in/' + _n], outputs=['out/shell%%d.res' %% _i]) << 'echo s'
 # a template living in a sub-directory of the workflow's directory that reaches UP with a leading '..'
 gwf.target_from_template('up', AnonymousTarget(inputs=['../out/direct.res', './../in/a.txt'], outputs=['../out/up.res'], options={}, spec='echo up', working_dir=%(updir)r))
 '''
@@ -329,13 +336,13 @@ def build_project(case, base):
     src = WF_TEMPLATE % {"wfkw": wfkw, "tplwd": tplwd, "items": case["items"], "updir": os.path.join(wf_wd, "updir")}
     fname = "workflow.py"
     if case.get("custom"):
-        src = src.replace("gwf = Workflow(", "wf = Workflow(").replace("\ngwf.", "\nwf.")
+        src = src.replace("gwf = Workflow(", "wf = Workflow(").replace("\ngwf.", "\nwf.").replace("(gwf.", "(wf.").replace("    gwf.", "    wf.")
         fname = "flow.py"
     with open(os.path.join(root, fname), "w") as f:
         f.write(src)
     # source files where the workflow means them
     items = [i if isinstance(i, str) else (i[0] if isinstance(i, list) else i["x"]) for i in case["items"]]
-    for d, xs in ((wf_wd, ["a"]), (tpl_wd, ["b", "k1", "n1", "f1"] + items)):
+    for d, xs in ((wf_wd, ["a", "g1", "g2", "h1"]), (tpl_wd, ["b", "k1", "n1", "f1"] + items)):
         os.makedirs(os.path.join(d, "in"), exist_ok=True)
         os.makedirs(os.path.join(d, "out"), exist_ok=True)
         for x in xs:
@@ -345,6 +352,13 @@ def build_project(case, base):
             os.utime(p, ns=(gen.BASE_T * 10**9, gen.BASE_T * 10**9))
     # expected outputs
     exp = {os.path.join(wf_wd, "out/direct.res"), os.path.join(wf_wd, "out/final.res"), os.path.join(wf_wd, "out/up.res")}
+    exp |= {os.path.join(wf_wd, "out", x) for x in ("glob0.res", "glob1.res", "iglob0.res", "shell0.res", "shell1.res")}
+    # decoys: files of the same pattern below the directories gwf is invoked from
+    for dd, names in ((os.path.join(base, "elsewhere", "x", "in"), ["g7.txt", "g8.txt", "g9.txt", "h7.txt", "h8.txt"]), (os.path.join(root, "sub", "deep", "in"), ["g5.txt", "h5.txt", "h6.txt"])):
+        os.makedirs(dd, exist_ok=True)
+        for nm in names:
+            with open(os.path.join(dd, nm), "w") as f:
+                f.write("decoy")
     for x in ["b", "k1", "n1", "f1"] + items:
         exp.add(os.path.join(tpl_wd, "out", x + ".res"))
     consumer_dep_ok = tpl_wd == wf_wd  # consumer reads out/b.res relative to the workflow dir
@@ -353,7 +367,7 @@ def build_project(case, base):
         with open(p, "w") as f:
             f.write("src")
         os.utime(p, ns=(gen.BASE_T * 10**9, gen.BASE_T * 10**9))
-    exp_deps = {"consumer": ["direct", "fromtpl"] if consumer_dep_ok else ["direct"], "up": ["direct"], "direct": [], "fromtpl": []}
+    exp_deps = {"consumer": ["direct", "fromtpl"] if consumer_dep_ok else ["direct"], "up": ["direct"], "direct": [], "fromtpl": [], "glob0": [], "glob1": [], "iglob0": [], "shell0": [], "shell1": []}
     return root, {"expected_outputs": exp, "wf_wd": wf_wd, "tpl_wd": tpl_wd, "expected_deps": exp_deps}
 
 
@@ -384,7 +398,7 @@ def run_where(case):
             r = cli.gwf(cwd, pre + ["-b", "slurm", "info"], env, audit=False)
             obs["info_rc"] = r.rc
             try:
-                inf = json.loads(r.out)
+                inf = json.loads(r.out.replace(base, "@BASE@"))  # every observation lives in its own temporary base
                 obs["info"] = {k: (sorted(v["dependencies"]), sorted(v["dependents"]), v["inputs"], v["outputs"]) for k, v in inf.items()}
             except ValueError:
                 obs["info"] = "unparsable: " + (r.err or r.out)[-300:]
